@@ -379,6 +379,24 @@ func LocksetEnd()             {}
 // The closures must not write variables they share by capture. Natively the two closures
 // run concurrently (the replay binary is built with -race when the harness file carries a
 // `//vf:race` line) so that the race detector confirms the finding.
+// RacePairFresh is RacePair with a fresh shared state per native round: mk builds the
+// state and returns the two operations on it (under the executor it is called once).
+// Use it when an operation changes the state only the first time it is applied.
+func RacePairFresh(label string, mk func() (func(), func())) {
+	rounds := RaceRounds
+	RaceRounds = 400
+	for i := 0; i < rounds; i++ {
+		a, b := mk()
+		var wg sync.WaitGroup
+		start := make(chan struct{})
+		wg.Add(2)
+		go func() { defer wg.Done(); defer func() { recover() }(); <-start; a() }()
+		go func() { defer wg.Done(); defer func() { recover() }(); <-start; b() }()
+		close(start)
+		wg.Wait()
+	}
+}
+
 // RaceRounds: number of native rounds of the NEXT RacePair (reset to 400 afterwards);
 // lower it for pairs whose operations take seconds natively.
 var RaceRounds = 400
